@@ -5,51 +5,73 @@ TEXT = {
  'C13': dict(level='proof', technique='contract-based deductive verification: sidecar contracts on the real functions, AST->SMT symbolic execution (pyvc), z3/cvc5',
    text='Every function of pyx12/validation.py (IsValidDataType, match_re, not_match_re, is_valid_date, is_valid_time) is proved equal to an executable value-language specification written from the statement, for ALL strings (complete length split into code-point vectors plus the unbounded residual; regex patterns re-extracted from the source each run) and every (type, charset, version) setting, and proved exception-free. Callers are checked against callee contracts.',
    note='Trusted: the ast->SMT semantics model of the Python subset (cross-checked against CPython on seeded inputs each run); assumption R2 about which match re.search returns for the two anchored patterns and the regex->NFA translation (bounded-exhaustive differential against CPython re each run, labelled bounded); int() on non-[+-]?digits strings is an uninterpreted deterministic function; z3/cvc5 soundness. Recursion of IsValidDataType (RD8->D8) is by its own contract: partial correctness, termination not proved.',
-   ref='5 C13'),
+   ref='4 C13'),
  'C14': dict(level='proof', technique='contract-based deductive verification (pyvc: AST->SMT, z3/cvc5) + exhaustive ground discharge of the configuration precondition',
    text='is_syntax_valid is proved to report a violation exactly when the X12 definition of the P/R/E/C/L note says so, for every note of 2..6 positions (any positions 1..99), every presence pattern and every segment length, against an abstract read-only Segment; _split_syntax is proved to parse the note text. The shipped maps are scanned exhaustively each run: every <syntax> has 2..6 two-digit positions (max seen: 4), so the case split is complete for the configuration.',
    note='Trusted: semantics model; abstract Segment (get_value/__len__ are pure functions of the receiver - their concrete meaning is the C17 contract); the routing of a violation to element error code 10 (E) / 2 (others) in segment_if.is_valid is not yet under contract (listed as unverified caller). Ground evaluation is finite and exhaustive, not a proof.',
-   ref='5 C14'),
+   ref='4 C14'),
  'C04': dict(level='proof', technique='contract-based deductive verification (pyvc: AST->SMT, z3/cvc5): step simulation against an executable recount spec, loop invariants with ghost state',
    text='X12Base._parse_segment, X12Reader._parse_segment and X12Reader.cleanup are proved, for every reader state and every segment, to update the envelope state and to emit envelope errors (isa 025/024/001/021/023, gs 6/3/4/5, st 23/3/4/2, seg HL1/HL2/LX) exactly as an independent recount written from the statement does (properly placed segments), to emit at least one envelope error for every misplaced trailer, and to raise nothing but the documented X12Error. The HL while-loop and the cleanup for-loop are cut at inductive invariants (ghost sequences).',
    note='Trusted: semantics model; abstract Segment view (seg_id, length, elements) read through reference designators per the C17 contract; int() on texts of unknown length is an uninterpreted deterministic function with int(str(n))==n; sequence lemma instances (snoc / prefix-snoc) and the fold/filter-map homomorphism axioms (quantified, true of the python definitions). Whole-sequence claim (any non-nested arrangement draws an error) is composed informally from the per-step obligations (DESIGN 5 C04). Known finding K3 (misplaced HEADERS draw no error) is excluded and listed.',
-   ref='5 C04'),
+   ref='4 C04'),
  'C11': dict(level='proof', technique='contract-based deductive verification (pyvc): inductive read-back invariant over a ghost output log (seq_fold), z3/cvc5',
    text='X12Writer.Write and X12Writer.Close (with _popToLoop, _close_*, _write_segment, _write_isa_segment and X12Base._parse_segment inlined from the real source) are proved to preserve the invariant that the reader\'s own recount over everything written so far shows no envelope discrepancy and agrees with the writer\'s counters, that a trailer of kind K closes through K, that non-trailer segments are appended unchanged, and that Close from any reachable state leaves an empty stack and a clean read-back. Stack depth 0..3 is a complete case split for well-nested sequences.',
    note='Assumed contract: X12Writer._get_trailer_segment (depends on Segment text parsing, C01) - covered by a BOUNDED native stand-in (grid of delimiters/kinds/counts/ids), not proved. Output is modelled at the level of segment views: the text layer (format then parse) is C01. Trusted: semantics model, abstract Segment view, text-output model (write appends), fold axioms, int(str(n))==n.',
-   ref='5 C11'),
+   ref='4 C11'),
  'C16': dict(level='other', technique='exhaustive ground evaluation of the representation invariants assumed by the other contracts, through the real loader',
    text='Every index entry, every map file and every one of the ~24k nodes of the shipped configuration is checked each run: files load, usages/repeats/positions/seq well formed, data elements and external code sets defined, same-position siblings distinguishable, index keys unambiguous, nodes addressable by their own path (getnodebypath / getnodebypath2), paths unique, explicit map directory == packaged resources.',
    note='Finite and exhaustive, no SMT: ground evaluation, not proof. Ten listed known findings (path addressing of elements/composites, 997 AK2 loop ids, duplicate CTX, overlapping qualifiers, 841 map, undefined data elements) are reported as KNOWN-FINDING with exact node counts; any node beyond them is a VIOLATION.',
-   ref='5 C16'),
+   ref='4 C16'),
  'C18': dict(level='other', technique='modifies-frame / determinism obligations discharged by conservative syntactic analysis of the real AST (contract frames), differential native replay',
    text='For every function of the package: no write to module or class state, no mutation of module/class level mutables, no mutated (or escaping-and-mutated) mutable default argument, no result cache, time/random only in the three documented places, no set iteration order reaching a value, no reflection. One obligation per (rule, module); findings outside a reasoned allow-list refute it; hash-order findings are replayed natively under different PYTHONHASHSEED.',
    note='Syntactic and name based: sound only in the absence of reflection (checked) and conservative (false alarms possible, handled by the reasoned allow-list in contracts/frames.py). Does not prove semantic independence of histories; it proves the absence of the mechanisms by which one call could influence another.',
-   ref='5 C18'),
+   ref='4 C18'),
  'C01': dict(level='proof', technique='contract-based deductive verification (pyvc) of Segment parse/format and the reader loop; bounded native differential for the raw tokeniser',
    text='Segment.__init__ is proved to split a segment text only at the given element/component separators (never inside an ISA) into exactly the character-for-character values (all texts up to 6 (quick) / 8 (thorough) characters, any characters, any one-character delimiters); Segment.format is proved equal to the trimmed joined text on all segment shapes up to 2/3 elements x 2 components with unconstrained values; X12Reader.__iter__ is proved to raise nothing but the documented X12Error for ANY raw line. Chunk independence, source kinds and the format/read round trip are covered by a BOUNDED native differential against an independent tokeniser.',
    note='RawX12File.__init__/__iter__ (nested loops over strings of unknown length behind an arbitrary stream) are NOT under a deductive contract: bounded stand-in only (fixtures x delimiters x line ends x perturbations incl. >8 KiB segments and empty segments x read chunkings). Segment parse proof is bounded in text length, format proof bounded in shape. The Segment constructor is used abstractly by the reader loop (assumed total).',
-   ref='5 C01'),
+   ref='4 C01'),
  'C15': dict(level='proof', technique='contract-based deductive verification (pyvc): ghost error log, opaque spec functions, callee contracts from C13',
    text='element_if.is_valid (with _is_valid_code and _error inlined) is proved, for every element definition (usage, data element type/min/max, inline code list, external code set, pattern, position in a composite), every value of any length and every qualifier-selected format list of up to two entries, to report exactly the error codes the definition implies (1, 10, 4, 5, 6, 7, 8, 9) and to return False exactly when it reported one; contains_control_character is proved against the control-character set. Callers use IsValidDataType through its C13 contract.',
    note='Known finding K4 (a value with a control character gets code 6 only) excluded and listed. composite_if.is_valid and segment_if.is_valid are covered by a BOUNDED native stand-in on every segment node of shipped maps, not proved. Trusted: data element table and external code sets as deterministic functions (defined-ness: ground C16), str.replace(c, \'\') length/count facts, rstrip() as uninterpreted function, compiled element patterns abstract.',
-   ref='5 C15'),
+   ref='4 C15'),
  'C17': dict(level='proof', technique='contract-based deductive verification (pyvc) with an exact ordered-choice model of the backtracking regex engine; exhaustive ground evaluation over shipped node paths',
    text='X12Path.__init__ is proved, for every text of up to 10 (quick) / 12 (thorough) characters, to print back exactly the well-formed paths of the documented grammar, to yield exactly the designator parts, and to raise X12PathError exactly for a qualifier / element index without segment id after loop ids (regex capture groups modelled exactly, no assumption about which match is returned). Segment.get_value and Segment.set are proved against the view laws (read-after-write, padding with empty positions, every other position unchanged, foreign segment id refused) on real Segment/Composite/Element object graphs of bounded shape. Every loop/segment path of every shipped map round-trips (ground, exhaustive).',
    note='Bounded in text length (paths) and in shape (segments up to 2/3 elements x 2 components, designators up to element 05 / component 4); values, delimiters and characters unconstrained. join-after-split identity of str.split/str.join is the trusted lemma L1/L2.',
-   ref='5 C17'),
+   ref='4 C17'),
  'C19': dict(level='proof', technique='contract-based verification of the escaping function (SMT for len<=3 + kernel-checked Lean lemma for all lengths) and syntactic taint obligations on every write of the report',
    text='escape_html_chars is proved to be the character code & -> &amp;, blank -> &nbsp;, > -> &gt;, < -> &lt; (SMT, all strings up to 3 characters; Lean: the replace chain of the source is flatMap of that code for all lengths, its image holds no raw < or >). Every hole of every fd.write in error_html.py is a literal, an integer conversion or a value that went through escape_html_chars (one obligation per write site).',
    note='The replace chain is re-extracted from the source each run and compared with the chain the Lean theorem is about; python str.replace(one char) == flatMap is the trusted transcription. Taint analysis is syntactic. Document-level completeness (every segment once, errors next to their segment) is a BOUNDED native stand-in on fixtures with injected faults.',
-   ref='5 C19'),
+   ref='4 C19'),
  'C08': dict(level='proof', technique='contract-based verification of the XML escaping functions (SMT + Lean); bounded native round trip',
    text='XMLWriter._escape_cont and _escape_attr are proved to be the XML character codes (SMT up to 3 characters, Lean lemma for all lengths). Loop nesting of x12xml_simple.seg and the XML->X12 inverse are covered by a BOUNDED native stand-in on fixtures (well-formedness, fresh element per repeated loop, segment-for-segment round trip with markup characters in the data).',
    note='Only the escaping layer is proved; x12xml_simple.seg stack discipline and xmlx12_simple.get_segment are not under contract (bounded stand-in). ElementTree is assumed to invert the escapes.',
-   ref='5 C08'),
+   ref='4 C08'),
+ 'C05': dict(level='proof', technique='contract-based deductive verification (pyvc) of the error-tree counting and acknowledgement-code functions; bounded native stand-in for the document level',
+   text='err_seg.err_count, err_st.err_count, err_st.close, err_gs._get_ack_code and err_gs.count_failed_st are proved against an executable recount of the error tree (own errors + segment errors + element errors; accepted exactly when no error is recorded at or below the set/group; failed-set count) on error trees of up to 2 children per level with unconstrained contents. That the overall verdict agrees with the acknowledgement (AK5/AK9/TA1 codes, AK9 totals equal to what the input held) is checked at document level by a BOUNDED native stand-in: fixtures x structural mutations x seeded mutations through the real pipeline.',
+   note='Deductive core is thin: it carries the clause "ack code is a function of the recorded errors"; the clause "verdict False <=> something recorded / acknowledged" rests on the bounded pipeline stand-in (labelled bounded in the evidence, not counted in obligations). Error trees bounded in width (2 per level). Known finding K9 (AK903/AK904 count an unrecognised ST) listed.',
+   ref='4 C05/C06/C07'),
+ 'C06': dict(level='proof', technique='contract on the 997 writer segment counter (pyvc) + exhaustive ground discharge over the map index + bounded native stand-in',
+   text='error_997_visitor._write is proved to write the segment through the writer and to count it exactly once (SE01 of the acknowledgement is that counter). Ground, exhaustive: the GS08/ST01 the 997 and 999 writers emit resolve to an entry of the shipped map index for every index entry that can be acknowledged. BOUNDED native stand-in: on fixtures x mutations the acknowledgement produced by the real pipeline, read back by the real reader and validator, is one complete interchange without envelope errors, and the acknowledgement of a valid document reports acceptance.',
+   note='Only the counter step is a deductive proof; well-nestedness of the emitted acknowledgement rests on the C11 writer proof (the visitors write through X12Writer) plus the bounded stand-in. The visit_* methods are not under contract. Known finding K10 (997 truncated after a segment without id) listed.',
+   ref='4 C05/C06/C07'),
+ 'C07': dict(level='proof', technique='contract-based deductive verification (pyvc): exception-freedom contracts (raises = documented set) on the reader, envelope machine and element validator; bounded native stand-in for the whole pipeline',
+   text='X12Reader.__iter__, X12Base._parse_segment, X12Reader._parse_segment, X12Reader.cleanup, IsValidDataType and element_if.is_valid are proved, for every state and every input in their domain, to raise nothing but the documented X12Error (engine-stop after ISA) - a Python exception anywhere in the body is an obligation. The whole pipeline (x12n_document with every sink combination) is run natively as a BOUNDED stand-in on fixtures x ~45 structural mutations x seeded mutations: no exception, verdict is a bool, every sink completes.',
+   note='The map walker, error_handler visitors, segment_if/composite_if.is_valid and the sinks are not under a deductive contract: their exception-freedom is only bounded-checked. Known findings K8a/K8b (st_error/gs_error/footer with no open set or group) listed, keyed by stand-in signature.',
+   ref='4 C05/C06/C07'),
+ 'C10': dict(level='proof', technique='contract-based deductive verification (pyvc) of the child-placement and cleanup functions and of Segment.get_value/set; bounded native stand-in for the tree API',
+   text='X12DataNode._get_insert_idx is proved to return the position that keeps the children ordered by map position (first index whose child sorts after the new node, else append) and X12DataNode._cleanup to remove exactly the children flagged deleted, keeping the order of the rest (up to 4 children, arbitrary positions/flags). Segment.get_value/set carry read-after-write and frame (C17 contracts). The API laws (set_value then get_value, add_segment/add_loop placement and countability, delete_segment/delete_node exactness, untouched segments unchanged, format order) are checked by a BOUNDED native stand-in on fixture trees x seeded call sequences.',
+   note='X12ContextReader.iter_segments, add_segment, add_loop, delete_* themselves are not under a deductive contract (they interleave the map walker): bounded stand-in only. Child lists bounded to 4.',
+   ref='4 C10'),
+ 'C12': dict(level='proof', technique='contract-based deductive verification (pyvc) with symbolic delimiters + delimiter-read frame obligations (syntactic) + bounded native re-encoding differential',
+   text='Segment.__init__ and Segment.format are proved against the parse/format specs with SYMBOLIC one-character element, component and segment delimiters (texts up to 6/8 characters, shapes up to 2/3 x 2): the parsed view depends on the delimiters only through where the text is split, and format(parse(t)) uses only the delimiters passed in. Frame obligations (one per module): outside the tokeniser, the segment classes and the writers no function reads a delimiter attribute or compares a value against a literal delimiter. BOUNDED stand-in: fixtures re-encoded under other delimiter triples yield the same verdict, the same errors and the same acknowledgement modulo encoding.',
+   note='Delimiter independence of validation as a whole is composed informally: views are delimiter-free (proved, bounded in length/shape) + nothing downstream reads a delimiter (syntactic frame). Known findings K4b (element_if.is_valid formats a composite for its error message using the input separator) and K11 (same value echoed into the acknowledgement) listed. Repetition separator of 5010 is read by the reader only (frame).',
+   ref='4 C01/C12'),
 }
 NA = [
   {"property_id": "C02", "reason": "completeness of the map walker over the language generated by each map: no per-function contract within reach states 'conformant document' without restating the walker (DESIGN.md section 6)"},
   {"property_id": "C03", "reason": "whole-walk localisation statement over documents x maps; element-level fault kinds are decided under C13/C14/C15 (DESIGN.md section 6)"},
+  {"property_id": "C09", "reason": "iter_segments interleaves the map walker with tree construction; no function-level contract within reach states the partition without restating the walker. A bounded partition check runs inside the C10 stand-in (it found the defect fixed in de40e6e) but is not a deductive decision, so nothing is claimed (DESIGN.md section 6)"},
+  {"property_id": "C20", "reason": "x12norm.main is argparse/glob/tempfile glue around X12Reader; the content/idempotence/count-repair clauses are whole-file statements through the raw tokeniser, which is outside the verifier's reach. A bounded native check exists (contracts/rawx12file.py:bounded_normaliser, found the defect fixed in 094a651) but is not registered (DESIGN.md section 6)"},
 ]
 import props
 checks = []
@@ -68,7 +90,7 @@ for pid in sorted(props.PROPS):
       "technique": t['technique'],
     })
 claimed = {c['property_id'] for c in checks}
-pending = ['C%02d' % i for i in range(1, 21) if 'C%02d' % i not in claimed and 'C%02d' % i not in ('C02', 'C03')]
+pending = ['C%02d' % i for i in range(1, 21) if 'C%02d' % i not in claimed and 'C%02d' % i not in {n['property_id'] for n in NA}]
 na = list(NA) + [{"property_id": p, "reason": "not yet claimed: contracts for this property are still being built in this session (see DESIGN.md section 9); no check is registered so nothing is claimed"} for p in pending]
 m = {
  "version": 1,
